@@ -13,3 +13,9 @@ theories/IntSpec.vos theories/IntSpec.vok theories/IntSpec.required_vos: theorie
 theories/AccessHist.vo theories/AccessHist.glob theories/AccessHist.v.beautified theories/AccessHist.required_vo: theories/AccessHist.v 
 theories/AccessHist.vio: theories/AccessHist.v 
 theories/AccessHist.vos theories/AccessHist.vok theories/AccessHist.required_vos: theories/AccessHist.v 
+theories/Alg.vo theories/Alg.glob theories/Alg.v.beautified theories/Alg.required_vo: theories/Alg.v theories/Base.vo
+theories/Alg.vio: theories/Alg.v theories/Base.vio
+theories/Alg.vos theories/Alg.vok theories/Alg.required_vos: theories/Alg.v theories/Base.vos
+theories/QuatAlg.vo theories/QuatAlg.glob theories/QuatAlg.v.beautified theories/QuatAlg.required_vo: theories/QuatAlg.v 
+theories/QuatAlg.vio: theories/QuatAlg.v 
+theories/QuatAlg.vos theories/QuatAlg.vok theories/QuatAlg.required_vos: theories/QuatAlg.v 
